@@ -597,3 +597,47 @@ Proof.
     exists (strip_fp 0 fp' :: fps'). rewrite Ef, <- app_assoc. split; [reflexivity|].
     cbn [List.map]. constructor; assumption.
 Qed.
+
+(* the same for file patches whose kind was decided from other hunks than the ones written (rejects) *)
+Lemma same_fp0_strip a c : same_fp0 a c ->
+  empty_name_fp (strip_fp 0 c) = empty_name_fp (strip_fp 0 a) /\
+  unsafe_fp (strip_fp 0 c) = unsafe_fp (strip_fp 0 a) /\ same_fp0 (strip_fp 0 a) (strip_fp 0 c).
+Proof.
+  intros (H2 & H3 & H4 & H5 & H6 & H7 & H8 & H9).
+  unfold empty_name_fp, unsafe_fp, strip_fp, same_fp0.
+  cbn [pf_kind pf_old pf_new pf_rename pf_operm pf_nperm pf_ohash pf_nhash pf_hunks].
+  rewrite H2, H3. repeat split; assumption.
+Qed.
+
+Theorem write_parse_patch0 : forall fps, Forall wf_fp0 fps -> Forall fp_names_ok fps ->
+  forall out fuel hdr acc, write_filepatches fps = Ok out -> (length fps < fuel)%nat ->
+  exists fps', parse_patch_loop fuel out 0 false hdr acc = Ok (Parsed {| pp_header := hdr; pp_fps := acc ++ fps' |}) /\
+               Forall2 same_fp0 (List.map (strip_fp 0) fps) fps'.
+Proof.
+  induction fps as [|f r IH]; intros Hwf Hnames out fuel hdr acc Hw Hf.
+  - cbn in Hw. injection Hw as <-. destruct fuel as [|fuel]; [cbn in Hf; lia|].
+    cbn [parse_patch_loop]. rewrite parse_filepatch_nil. cbn [bind]. exists []. rewrite app_nil_r.
+    split; [reflexivity|constructor].
+  - inversion Hwf as [|? ? Hf1 Hr1]; subst. inversion Hnames as [|? ? [Hn1 Hn2] Hr2]; subst.
+    cbn [write_filepatches] in Hw.
+    destruct (write_filepatch f) as [x| |] eqn:Ex; cbn [bind] in Hw; try discriminate.
+    destruct (write_filepatches r) as [y| |] eqn:Ey; cbn [bind] in Hw; try discriminate. injection Hw as <-.
+    destruct fuel as [|fuel]; [cbn in Hf; lia|]. cbn [List.length] in Hf.
+    destruct (write_parse_filepatch0 f x y Hf1 (write_filepatches_rest_ok _ _ Ey) Ex) as (fp' & Ep & Hs & _ & _).
+    cbn [parse_patch_loop]. rewrite Ep. cbn [bind].
+    destruct (same_fp0_strip _ _ Hs) as (E1 & E2 & Hs').
+    rewrite E1, Hn1, E2, Hn2.
+    destruct (IH Hr1 Hr2 y fuel hdr (acc ++ [strip_fp 0 fp']) eq_refl ltac:(lia)) as (fps' & Ef & Hall).
+    exists (strip_fp 0 fp' :: fps'). rewrite Ef, <- app_assoc. split; [reflexivity|].
+    cbn [List.map]. constructor; assumption.
+Qed.
+
+Lemma write_filepatches_length : forall fps out, write_filepatches fps = Ok out -> (length fps <= length out)%nat.
+Proof.
+  induction fps as [|f r IH]; intros out; cbn [write_filepatches]; [intros [= <-]; cbn; lia|].
+  destruct (write_filepatch f) as [x| |] eqn:Ex; cbn [bind]; try discriminate.
+  destruct (write_filepatches r) as [y| |] eqn:Ey; cbn [bind]; try discriminate. intros [= <-].
+  destruct (write_filepatch_hd _ _ Ex) as [t ->]. specialize (IH _ eq_refl).
+  assert (H1 : (1 <= length (b "diff --git " ++ t))%nat) by (cbn; lia).
+  rewrite (app_length (b "diff --git " ++ t) y). cbn [List.length]. lia.
+Qed.
